@@ -129,10 +129,10 @@ CHECKS = {
          "is accepted iff the decision for g_old - g_new says so; a counted step adds ln f to g and 1 to H of the occupied bin only; the histogram total "
          "counts the counted steps; f -> sqrt f, H -> 0, niter+1 exactly when a scheduled check finds every range bin at >= flatcrit x mean, never "
          "between scheduled checks; the loop runs iff ln f > ln convergence; within an iteration g = g_start + ln f * H bin by bin (so per-iteration g "
-         "increments equal ln f times the final histogram); bin centres are midpoints of the equal partition. Tie: a guarded per-step trace hook in "
+         "increments equal ln f times the final histogram); bin centres are midpoints of the equal partition; (Props/C18Bin.lean) the bin index the machine computes for a proposal, argmin |bincts - kappa|, is a nearest centre and for kappa in [0,1] the bin whose closed interval contains kappa, and a request made of whole bins of a partition of [0,1] is tiled exactly (wlConfig_aligned). Also (C18Src) indexInsideRelevantRegion as written in the source today equals the model's range test for all arguments. Tie: a guarded per-step trace hook in "
          "run_normal_WL + a recording RNG; every step of short seeded runs is checked directly against the property and replayed through the model.",
          "Needs the hook (LOCALCIDER_VERIF=1). Not proved: the distribution of proposals; float exp/log (ln f is exactly 2^-k in the model; g compared "
-         "within 1e-9); visits-are-rearrangements is C17's theorem chain and is re-checked on every trace step. Runs are capped at 1500 steps.",
+         "within 1e-9); visits-are-rearrangements is C17's theorem chain and is re-checked on every trace step. Runs are capped at 1500 steps (2600 for the runs that push g past 710).",
          "Lean 4 proof (state-machine invariants) + per-step trace conformance through a guarded hook"),
  "C19": ("PARTIAL. Lean theorems: for every point (f+, f-) of the composition simplex the point lies in the closed published polygon of the region the "
          "exact-threshold rule assigns (so, with C08, a marker lies inside the region whose number the sequence is assigned, for every composition of "
